@@ -60,6 +60,17 @@ func plans(tier string, tmpl []replica.Template, nBase int) []plan {
 			}
 		}
 	}
+	// life-cycle chains (switches turned off and on with uses in between), exported after every one of
+	// their blocks: states in which a pair is disabled, a hook is off, a proposal is half way
+	for _, c := range replica.LifecycleChains(tmpl, nBase) {
+		for k := 1; k <= len(c.Blocks); k++ {
+			if tier != "thorough" && k%2 == 0 && k != len(c.Blocks) {
+				continue
+			}
+			out = append(out, plan{replica.Plan{Blocks: c.Blocks[:k], Tail: 0}, fmt.Sprintf("%s|export-after-block-%d", c.Name, k)})
+		}
+		out = append(out, plan{replica.Plan{Blocks: c.Blocks, Tail: 2}, c.Name})
+	}
 	if tier == "thorough" {
 		// rich states: a long chain of many templates
 		all := []int{}
@@ -239,7 +250,8 @@ func Worker(shard, n int, tier string) *engine.Result {
 			viol("staking", "validators", "changed", "exported validator set differs", nil)
 		}
 		// --- queries
-		qa, qb := replica.RunBattery(wa), replica.RunBattery(wb)
+		qlist := replica.BatteryOf(wa) // both nodes are asked the questions A's state suggests
+		qa, qb := replica.RunQueries(wa, qlist), replica.RunQueries(wb, qlist)
 		for j := range qa {
 			res.Evaluations++
 			if qa[j] != qb[j] {
